@@ -7,7 +7,9 @@
 EXTENDS Naturals, TLC, Json
 CONSTANTS NProgs, MaxPos
 Ops == {"DeleteDecl", "DuplicateDecl", "RenameRef", "SwapTypeArgs", "DropTypeArg", "MakeCyclicAlias", "AliasChain",
-        "WrapPartial", "WrapKeyof", "WrapRecordKey", "WrapExclude", "WrapIndexed", "ReplaceByNever", "TruncateAt"}
+        "WrapPartial", "WrapKeyof", "WrapRecordKey", "WrapExclude", "WrapIndexed", "ReplaceByNever", "TruncateAt",
+        \* layout only: tab indentation, wide (CJK) characters before every line
+        "IndentTabs", "WidePrefix"}
 VARIABLES prog, op, pos
 Init == prog \in 1..NProgs /\ op \in Ops /\ pos \in 1..MaxPos
 Next == UNCHANGED <<prog, op, pos>>
